@@ -1,10 +1,137 @@
-From Coq Require Import List Arith Bool Lia.
+(* Umbrella of the C17 development: the statements exported to Props/C17.v, in exactly the form
+   pinned there (hypothesis [2 <= B] after the universally quantified data). *)
+From Coq Require Import List Arith Bool.
 Import ListNotations.
-From NV Require Import Vector.Model Vector.History.
+From NV Require Import Vector.Model Vector.History Vector.Wf Vector.HistoryAbs Vector.VecProofs Vector.ExtendProofs
+  Vector.SliceProofs Vector.HistoryProofs Vector.BitOps.
 
-Lemma vnew_wf : forall B, 2 <= B -> check_invariants B (@vnew nat) = true.
-Proof.
-  intros B HB. unfold check_invariants, vnew; cbn [root vlen height].
-  unfold height_for_length, ilog. cbn [Nat.sub Nat.max ilog_fuel].
-  destruct (Nat.ltb_spec 1 B); [reflexivity | lia].
-Qed.
+(* ---- the property: histories over families of handles refine independent lists *)
+Lemma history_refines_stmt : forall B ops, 2 <= B ->
+  Forall2 (fun (x : res * istate) (y : res * sstate) =>
+             fst x = fst y /\ abs (snd x) = snd y /\ all_wf B (snd x))
+          (irun B iinit ops) (srun sinit ops).
+Proof. intros B ops HB. exact (history_refines B HB ops). Qed.
+
+Lemma history_refines_from_stmt : forall B st ops, 2 <= B -> all_wf B st ->
+  Forall2 (fun (x : res * istate) (y : res * sstate) =>
+             fst x = fst y /\ abs (snd x) = snd y /\ all_wf B (snd x))
+          (irun B st ops) (srun (abs st) ops).
+Proof. intros B st ops HB W. exact (run_refines B HB ops st W). Qed.
+
+Lemma frame_vec_stmt : forall B st o j, 2 <= B -> all_wf B st ->
+  match o with
+  | VPush k _ | VPop k | VSet k _ _ | VTrunc k _ | VExtend k _ | VDrop k => j <> k
+  | _ => True
+  end ->
+  j < length (ivs st) ->
+  option_map (@to_list nat) (nth j (ivs (fst (istep B st o))) None)
+  = option_map (@to_list nat) (nth j (ivs st) None).
+Proof. intros B st o j HB. exact (frame_vec B HB st o j). Qed.
+
+Lemma frame_slice_stmt : forall B st o j, 2 <= B -> all_wf B st ->
+  match o with
+  | SPush k _ | SPop k | SSet k _ _ | SSlice k _ _ | SExtend k _ | SExtendFrom k _ | SDrop k => j <> k
+  | _ => True
+  end ->
+  j < length (iss st) ->
+  option_map (@sl_list nat) (nth j (iss (fst (istep B st o))) None)
+  = option_map (@sl_list nat) (nth j (iss st) None).
+Proof. intros B st o j HB. exact (frame_slice B HB st o j). Qed.
+
+(* ---- the invariant and the executable check of the crate *)
+Lemma new_wf_stmt : forall A B, wf B (@vnew A) /\ to_list (@vnew A) = [].
+Proof. intros A B. exact (conj (@vnew_wf A B) (@vnew_list A)). Qed.
+
+Lemma wf_check_invariants_stmt : forall A B (v : @vec A), 2 <= B -> wf B v -> check_invariants B v = true.
+Proof. intros A B v HB. exact (wf_check_invariants B HB v). Qed.
+
+Lemma wf_length_stmt : forall A B (v : @vec A), 2 <= B -> wf B v -> length (to_list v) = vlen v.
+Proof. intros A B v HB. exact (wf_length B HB v). Qed.
+
+(* ---- every Vector operation keeps [wf], does not panic in contract, and refines the list operation *)
+Lemma push_stmt : forall A B (v : @vec A) x, 2 <= B -> wf B v ->
+  exists v', vpush B v x = Some v' /\ wf B v' /\ to_list v' = to_list v ++ [x] /\ vlen v' = vlen v + 1.
+Proof. intros A B v x HB. exact (vpush_spec B HB v x). Qed.
+
+Lemma pop_stmt : forall A B (v : @vec A), 2 <= B -> wf B v ->
+  exists v', vpop v = Some (last_opt (to_list v), v') /\ wf B v'
+             /\ to_list v' = removelast (to_list v) /\ vlen v' = vlen v - 1
+             /\ (to_list v = [] -> v' = v).
+Proof. intros A B v HB. exact (vpop_spec B HB v). Qed.
+
+Lemma get_stmt : forall A B (v : @vec A) idx, 2 <= B -> wf B v ->
+  vget B v idx = nth_error (to_list v) idx.
+Proof. intros A B v idx HB. exact (vget_spec B HB v idx). Qed.
+
+Lemma set_stmt : forall A B (v : @vec A) idx x, 2 <= B -> wf B v -> idx < vlen v ->
+  exists v', vset B v idx x = Some v' /\ wf B v' /\ to_list v' = list_set (to_list v) idx x
+             /\ vlen v' = vlen v.
+Proof. intros A B v idx x HB. exact (vset_spec B HB v idx x). Qed.
+
+Lemma set_out_of_bounds_stmt : forall A B (v : @vec A) idx x, 2 <= B -> vlen v <= idx ->
+  vset B v idx x = None.
+Proof. intros A B v idx x HB. exact (vset_out_of_bounds B HB v idx x). Qed.
+
+Lemma truncate_stmt : forall A B (v : @vec A) len, 2 <= B -> wf B v ->
+  exists v', vtruncate B v len = Some v' /\ wf B v' /\ to_list v' = firstn len (to_list v)
+             /\ vlen v' = Nat.min len (vlen v).
+Proof. intros A B v len HB. exact (vtruncate_spec B HB v len). Qed.
+
+Lemma extend_stmt : forall A B (v : @vec A) it, 2 <= B -> wf B v ->
+  exists v', vextend B v it = Some v' /\ wf B v' /\ to_list v' = to_list v ++ it
+             /\ vlen v' = vlen v + length it.
+Proof. intros A B v it HB. exact (vextend_spec B HB v it). Qed.
+
+Lemma iter_from_stmt : forall A B (v : @vec A) idx, 2 <= B -> wf B v ->
+  viter_from B v idx = if idx <=? vlen v then Some (skipn idx (to_list v)) else None.
+Proof. intros A B v idx HB. exact (viter_from_spec B HB v idx). Qed.
+
+(* ---- the slice layer *)
+Lemma slice_new_stmt : forall A B, 2 <= B -> swf B (@snew A) /\ sl_list (@snew A) = [].
+Proof. intros A B HB. exact (conj (@snew_swf A B HB) (@snew_list A)). Qed.
+
+Lemma slice_from_list_stmt : forall A B (l : list A), 2 <= B ->
+  exists s', sfrom_list B l = Some s' /\ swf B s' /\ sl_list s' = l.
+Proof. intros A B l HB. exact (sfrom_list_spec B HB l). Qed.
+
+Lemma slice_push_stmt : forall A B (s : @slice A) x, 2 <= B -> swf B s ->
+  exists s', spush B s x = Some s' /\ swf B s' /\ sl_list s' = sl_list s ++ [x].
+Proof. intros A B s x HB. exact (spush_spec B HB s x). Qed.
+
+Lemma slice_pop_stmt : forall A B (s : @slice A), 2 <= B -> swf B s ->
+  exists s', spop B s = Some (last_opt (sl_list s), s') /\ swf B s'
+             /\ sl_list s' = removelast (sl_list s) /\ (sl_list s = [] -> s' = s).
+Proof. intros A B s HB. exact (spop_spec B HB s). Qed.
+
+Lemma slice_get_stmt : forall A B (s : @slice A) idx, 2 <= B -> swf B s ->
+  sget B s idx = nth_error (sl_list s) idx.
+Proof. intros A B s idx HB. exact (sget_spec B HB s idx). Qed.
+
+Lemma slice_set_stmt : forall A B (s : @slice A) idx x, 2 <= B -> swf B s -> idx < slen s ->
+  exists s', sset B s idx x = Some s' /\ swf B s' /\ sl_list s' = list_set (sl_list s) idx x.
+Proof. intros A B s idx x HB. exact (sset_spec B HB s idx x). Qed.
+
+Lemma slice_slice_stmt : forall A B (s : @slice A) a b, 2 <= B -> swf B s ->
+  if (a <=? b) && (b <=? slen s)
+  then exists s', sslice s a b = Some s' /\ swf B s'
+                  /\ sl_list s' = firstn (b - a) (skipn a (sl_list s))
+  else sslice s a b = None.
+Proof. intros A B s a b HB. exact (sslice_spec B HB s a b). Qed.
+
+Lemma slice_extend_stmt : forall A B (s : @slice A) it, 2 <= B -> swf B s ->
+  exists s', sextend B s it = Some s' /\ swf B s' /\ sl_list s' = sl_list s ++ it.
+Proof. intros A B s it HB. exact (sextend_spec B HB s it). Qed.
+
+Lemma slice_iter_stmt : forall A B (s : @slice A), 2 <= B -> swf B s -> siter B s = Some (sl_list s).
+Proof. intros A B s HB. exact (siter_spec B HB s). Qed.
+
+Lemma slice_length_stmt : forall A B (s : @slice A), 2 <= B -> swf B s -> length (sl_list s) = slen s.
+Proof. intros A B s HB. exact (sl_length B HB s). Qed.
+
+(* ---- shifts and masks of the Rust code vs div/mod of the model, for N = 2^k *)
+Lemma bit_ops_agree_stmt : forall k idx h,
+  Nat.land (Nat.shiftr idx (Nat.log2 (2 ^ k) * h)) (2 ^ k - 1) = extract_index (2 ^ k) idx h.
+Proof. exact bit_ops_agree. Qed.
+
+Lemma leaf_mask_agrees_stmt : forall k idx, Nat.land idx (2 ^ k - 1) = idx mod 2 ^ k.
+Proof. exact leaf_mask_agrees. Qed.
